@@ -170,6 +170,17 @@ m('A38-unsynchronized-write-in-take-one', [(VE, '''    vec_len: usize,
         let src_ptr = vec.as_mut_ptr().add(item_idx);''', '''        let vec = &mut *self.vec.get();
         *self.last_taken.get() = item_idx;
         let src_ptr = vec.as_mut_ptr().add(item_idx);''')], ['C07'], 'a data race on non-atomic state for which engine A has no probe: caught by the Miri cross-check (engine B) of C07')
+m('A39-try-get-len-ignores-completed', [(IT, """        match self.completed.load(atomic::Ordering::SeqCst) {
+            true => Some(0),
+            false => self.initial_len.map(|initial_len| {""", """        match self.completed.load(atomic::Ordering::SeqCst) && self.initial_len.is_none() {
+            true => Some(0),
+            false => self.initial_len.map(|initial_len| {""")], ['C05'], 'with an exact hint the length is computed from the counters only: positive after the end if the source ended earlier than its hint announced (F7d), or after a panic/short source')
+m('A40-end-on-size-hint-alone', [(IT, """        let n = n.min(self.initial_len.unwrap_or(n).max(1));
+""", """        let n = n.min(self.initial_len.unwrap_or(n).max(1));
+        if matches!(self.initial_len, Some(len) if self.counter().current() >= len) {
+            return None;
+        }
+""")], ['C05'], 'the idea of seeded change C05-r4: needs a source that yields more than its exact hint announced (F7c)')
 # variants that must stay quiet (Appendix B)
 m('B01-all-seqcst', [(AC, 'Ordering::AcqRel)', 'Ordering::SeqCst)'), (AC, 'Ordering::AcqRel)', 'Ordering::SeqCst)'), (AC, 'Ordering::Acquire)', 'Ordering::SeqCst)'),
                      (IT, 'self.completed.load(atomic::Ordering::Relaxed)', 'self.completed.load(atomic::Ordering::SeqCst)')], [], 'quiet')
